@@ -3,6 +3,9 @@
 package main
 
 import (
+	"github.com/oauth2-proxy/oauth2-proxy/v7/providers"
+	"context"
+	"os"
 	"fmt"
 	"net/http"
 	"net/http/httptest"
@@ -296,9 +299,26 @@ func driveC08(t *testing.T, out *vEmitter) {
 				b2 := e.newBrowser("https://app.example.com")
 				l := b2.start("/")
 				e.idp.stdToken(s.Email, l.Nonce, map[string]interface{}{"groups": s.Groups})
-				if s.Email != "" {
+				{
 					cb := b2.callback(l.State, "c")
 					issued := e.sessionCookieSet(cb)
+					want := want && s.Email != "" // a login that yields no e-mail address never passes the e-mail rules
+					// the same login at a provider whose redemption yields exactly this identity (no e-mail requirement of
+					// its own): the decision is the callback's
+					{
+						real := e.p.provider
+						e.p.provider = &vFixedIdentityProvider{Provider: real, sess: s}
+						b3 := e.newBrowser("https://app.example.com")
+						l3 := b3.start("/")
+						cb3 := b3.callback(l3.State, "c")
+						e.p.provider = real
+						issued3 := e.sessionCookieSet(cb3)
+						out.Obs("proxy-login-fixed", true, vL("login", vI(int64(ri)), vS(s.User), vI(int64(cb3.Status)), vBool(issued3)))
+						if issued3 != want {
+							out.Violation("authz/login-enforcement", "a login whose identity fails the rules got a session (or one that passes got none)",
+								map[string]interface{}{"rules": fmt.Sprint(rl), "email": s.Email, "groups": s.Groups, "status": cb3.Status, "provider": "fixed-identity"})
+						}
+					}
 					out.Obs("proxy-login", true, vL("login", vI(int64(ri)), vS(s.User), vI(int64(cb.Status)), vBool(issued)))
 					if issued != want {
 						out.Violation("authz/login-enforcement", "a login whose identity fails the rules got a session (or one that passes got none)",
@@ -308,4 +328,106 @@ func driveC08(t *testing.T, out *vEmitter) {
 			}
 		}
 	}
+	vC08FileReload(t, out)
 }
+
+// vC08FileReload: the authenticated-emails file changes while sessions exist.  After each completed reload
+// (signalled by the watcher's callback) a session whose address is no longer listed is refused and its cookie
+// cleared, whatever the new contents are: one address removed, all addresses commented out, an empty file,
+// the address back again.
+func vC08FileReload(t *testing.T, out *vEmitter) {
+	path := vWriteFile("c08-reload-emails.txt", "keep@file.test\nrevoked@file.test\n")
+	updated := make(chan struct{}, 16)
+	done := make(chan bool)
+	defer close(done)
+	e := vNewEnv(t, vEnvCfg{oidc: true, mod: func(o *options.Options) {
+		o.EmailDomains = []string{"nobody.test"}
+		o.Cookie.Refresh = 0
+	}})
+	e.p.Validator = newValidatorImpl([]string{"nobody.test"}, path, done, func() {
+		select {
+		case updated <- struct{}{}:
+		default:
+		}
+	})
+	type step struct {
+		label, content string
+		listed         map[string]bool
+	}
+	steps := []step{
+		{"initial", "", map[string]bool{"keep@file.test": true, "revoked@file.test": true}},
+		{"one-removed", "keep@file.test\n", map[string]bool{"keep@file.test": true}},
+		{"both-back", "keep@file.test\nrevoked@file.test\n", map[string]bool{"keep@file.test": true, "revoked@file.test": true}},
+		{"all-commented-out", "# keep@file.test\n# revoked@file.test\n", map[string]bool{}},
+		{"both-back-2", "revoked@file.test\nkeep@file.test\n", map[string]bool{"keep@file.test": true, "revoked@file.test": true}},
+		{"empty-file", "", map[string]bool{}},
+		{"same-size-swap", "peek@file.test\nrevoked@file.test\n", map[string]bool{"peek@file.test": true, "revoked@file.test": true}},
+		{"same-size-swap-back", "keep@file.test\nrevoked@file.test\n", map[string]bool{"keep@file.test": true, "revoked@file.test": true}},
+	}
+	for si, st := range steps {
+		if si > 0 {
+			for len(updated) > 0 {
+				<-updated
+			}
+			if err := os.WriteFile(path, []byte(st.content), 0o600); err != nil {
+				t.Fatal(err)
+			}
+			select {
+			case <-updated:
+			case <-time.After(5 * time.Second):
+				out.Stat("c08_reload_watcher_silent", 1)
+				return
+			}
+			// let a second event of the same write (truncate + write) settle
+			for settle := true; settle; {
+				select {
+				case <-updated:
+				case <-time.After(150 * time.Millisecond):
+					settle = false
+				}
+			}
+		}
+		for _, em := range []string{"keep@file.test", "revoked@file.test", "peek@file.test"} {
+			b := e.newBrowser("https://app.example.com")
+			b.seedSession(em, time.Minute, 20)
+			res := b.get("/")
+			out.Obs("file-reload", true, vL(vY(st.label), vS(em), vI(int64(res.Status)), vBool(res.Hit())))
+			out.Stat("c08_reload_requests", 1)
+			if res.Hit() != st.listed[em] {
+				out.Violation("authz/rule-change-not-enforced", "after the e-mail rules changed, a session that no longer passes was still served (or one that passes was refused)",
+					map[string]interface{}{"email": em, "file_version": st.label, "served": res.Hit(), "status": res.Status})
+			}
+			if !st.listed[em] && !res.Hit() {
+				cleared := false
+				for _, c := range res.Cookies {
+					if c.Name == e.opts.Cookie.Name && c.MaxAge < 0 {
+						cleared = true
+					}
+				}
+				if !cleared {
+					out.Violation("authz/refusal-does-not-clear", "a session failing the global rules was refused without clearing its cookie",
+						map[string]interface{}{"email": em, "file_version": st.label, "status": res.Status})
+				}
+			}
+		}
+	}
+}
+
+
+// vFixedIdentityProvider: the configured provider with a redemption that returns a fixed identity and no
+// enrichment, so that the callback's own authorisation decision is what is observed.
+type vFixedIdentityProvider struct {
+	providers.Provider
+	sess *sessionsapi.SessionState
+}
+
+func (p *vFixedIdentityProvider) Redeem(context.Context, string, string, string) (*sessionsapi.SessionState, error) {
+	c := *p.sess
+	c.Groups = append([]string(nil), p.sess.Groups...)
+	return &c, nil
+}
+func (p *vFixedIdentityProvider) EnrichSession(context.Context, *sessionsapi.SessionState) error { return nil }
+func (p *vFixedIdentityProvider) GetEmailAddress(context.Context, *sessionsapi.SessionState) (string, error) {
+	return "", providers.ErrNotImplemented
+}
+func (p *vFixedIdentityProvider) ValidateSession(context.Context, *sessionsapi.SessionState) bool { return true }
